@@ -37,27 +37,30 @@ HAND = {
     'C20': 'trailing 0xAA not kept; checksum test dropped; noise before a marker not trimmed',
 }
 STEER = {
-    "codec": "This time aim at DATA rather than logic: nmea2000/pgns.py is generated (about 59 000 lines, 400+ decode_pgn_* and "
-             "encode_pgn_* functions, lookup tables and lookup_encode_* maps). Make a slip of the kind a hand edit, a bad merge or "
-             "a generator template change leaves behind in ONE rarely used definition or table: a bit offset, bit length, mask, "
-             "shift, resolution, offset constant, signedness flag, unit, physical quantity, primary-key flag, field id or field "
-             "order that is wrong in the decoder but not the encoder (or the other way round); a lookup entry missing, duplicated, "
-             "renumbered or spelt differently in the decode table and the encode map; a range bound off by one step; the wrong "
-             "lookup table referenced; a match value wrong in the dispatcher. Choose a definition the test suite never touches "
-             "and make sure the slip is visible only for particular values.",
-    "state": "This time aim at CONFIGURATION and LIFECYCLE: how the decoder / encoder constructors and nmea2000/cli.py or "
-             "ioclient.py pass options down (lists given as tuples, sets, generators or None; entries with surrounding blanks; "
-             "ids with different capitalisation; PGN numbers as strings or floats; the same option given to two decoders; "
-             "options changed after construction through attributes), what a long-lived decoder accumulates (dictionaries that "
-             "only grow, records never deleted, caches without bound) and what differs between the FIRST and the N-th use of "
-             "an object (lazy initialisation, first-call special cases, counters that wrap, state left by the previous call's "
-             "exception).",
-    "async": "This time aim at ORDER and RESOURCES under load: many messages in one read (hundreds of packets in a single "
-             "chunk), a consumer slower than the producer, the internal queue's size and ordering, tasks that are created per "
-             "message or per reconnect and never awaited or cancelled (so they pile up or outlive close()), the order of two "
-             "things that happen in the same loop iteration (data and EOF, status notification and first message, close and "
-             "reconnect timer), fairness between reading and sending, and anything that is correct for the first connection but "
-             "not for the second or third (writer / reader / buffers / tasks / locks / counters carried over or re-created).",
+    "codec": "Pick your own angle, but make it one that none of the attempts above used. Some unexplored corners: "
+             "nmea2000/utils.py helpers used by only a handful of definitions (decode_bit_lookup, decode_indirect_lookup, "
+             "decode_float, decode_date, decode_time, decode_string_fix, decode_string_lz, decode_binary and their encode "
+             "counterparts); the hand-written parts of decoder.py / encoder.py around the generated code (how the payload integer "
+             "is built from bytes, byte order, the length passed to variable-length fields, how 'already combined' input is "
+             "handled); nmea2000/message.py (NMEA2000Field / IsoName construction, equality, __post_init__, defaults shared "
+             "between instances); numerical corner cases (values exactly half a step, the largest 64-bit values, resolution "
+             "1e-7 / 1e-16 fields, negative zero, floats that print in exponent notation, ints passed where floats are "
+             "expected and vice versa). The change must be small and look like an honest mistake.",
+    "state": "Pick your own angle, but make it one that none of the attempts above used. Some unexplored corners: what "
+             "happens at exactly the boundary of a limit (32 frames, 223 bytes, 8 sequence counters, 10 minutes, 253 "
+             "sources, 29-bit identifiers with the top bits set), error paths (an exception raised half-way through handling "
+             "a frame: what was already modified?), objects handed out to the caller and later reused internally, the order "
+             "of dictionary iteration or of list removal while iterating, default arguments evaluated once, comparison of "
+             "objects by identity instead of value, integer keys versus string keys for the same thing, and any place where "
+             "two representations of the same fact (a flag and a collection, a counter and a length) can drift apart.",
+    "async": "Pick your own angle, but make it one that none of the attempts above used. Some unexplored corners: the tenacity "
+             "retry configuration (which exceptions are retried, what happens on an exception that is not retried, "
+             "before_sleep), cancellation arriving at each particular await (CancelledError inside connect(), inside the "
+             "receive loop's error handler, inside _update_state), the network-map seeding task (started per connect, "
+             "cancelled when?), what send() does in each client state (DISCONNECTED, reconnecting, CLOSED) and for each "
+             "client class (Actisense has no encoder; Waveshare writes a configuration packet first), transports that report "
+             "errors through connection_lost(exc) versus through the next read, half-closed links, writer.close() / "
+             "wait_closed() semantics, and differences between TCP and serial clients in any of the above.",
 }
 GROUP = {**{f"C{i:02d}": "codec" for i in (1, 2, 5, 6, 7, 8, 9, 15, 17, 18)}, **{f"C{i:02d}": "state" for i in (3, 4, 10, 11, 16)},
          **{f"C{i:02d}": "async" for i in (12, 13, 14, 19, 20)}}
